@@ -15,7 +15,7 @@ KINDS = ['mixed', 'word', 'worddup', 'perm', 'fwd', 'worddel', 'addonly', 'mixed
 
 
 def run(ctx):
-    return mc.generic_run(ctx, 'C01', KINDS, n_quick=12, n_thorough=400)
+    return mc.generic_run(ctx, 'C01', KINDS, n_quick=40, n_thorough=400)
 
 
 def replay(ctx, payload):
